@@ -70,8 +70,9 @@ package ice
 //@   ensures never-started: result1 == nil ==> result0 != nil && fresh(result0) && result0.candidateBase.closeCh == nil && result0.candidateBase.conn == nil
 
 //@ func NewCandidateHost
-//@   props C09
+//@   props C09 C16 C06
 //@   opt nosafety
+//@   ensures C16 C06 keeps-the-configured-tcp-type: result1 == nil ==> result0.candidateBase.tcpType == old(config.TCPType)
 //@   ensures never-started: result1 == nil ==> result0 != nil && fresh(result0) && result0.candidateBase.closeCh == nil && result0.candidateBase.conn == nil
 
 // Host candidates on a UDP mux: every connection reference taken from the mux is
